@@ -505,6 +505,13 @@ def dispatch(eng, st, body, callee, args):
                 break
             else:
                 break
+        if Tr in ("AsRef", "AsMut", "Borrow", "BorrowMut") and isinstance(p0, Ptr):
+            # `impl AsRef<U> for &T` / `&mut T` forwards to T's own impl when the crate has one
+            inner = eng.load_ptr(st, p0)
+            if isinstance(inner, (Struct, Enum)) and inner.ty not in ("Box", "HashMap", "()"):
+                nm = eng.mir.resolve(f"<{inner.ty} as {Tr}>::{meth}")
+                if nm is not None:
+                    return eng.exec_body(st, eng.mir.bodies[nm], [p0])
         return _o(st, p0)
     if Tr == "Clone" and meth == "clone":
         v = eng.deref_all(st, args[0]) if isinstance(args[0], Ptr) else args[0]
@@ -516,6 +523,16 @@ def dispatch(eng, st, body, callee, args):
             return r
     if Tr in ("Into", "From") and meth in ("into", "from") and len(args) == 1:
         v = args[0]
+        if isinstance(v, (Struct, Enum)) and v.ty not in ("()", "Box", "HashMap"):
+            # a crate `impl From<T> for U`: pick the impl whose parameter type is the value's type
+            mt = re.search(r"(?:Into|From)<\s*([^<>]*?)\s*(?:<.*>)?>\s*>::", callee)
+            target = (mt.group(1).split("::")[-1] if (mt and Tr == "Into") else (T or "").split("::")[-1])
+            for (tr_, nm_) in eng.mir.methods.get((target, "from"), []):
+                if tr_ != "From":
+                    continue
+                mh = re.search(r"\(_1: ([^,()]+?)(?:<.*?>)?(?:,|\))", eng.mir.bodies[nm_].header)
+                if mh and mh.group(1).strip().split("::")[-1] == v.ty:
+                    return eng.exec_body(st, eng.mir.bodies[nm_], [v])
         if is_scalar(v) or isinstance(v, (Seq, Struct)):
             # numeric widening / identity conversions
             if isinstance(v, int) and rawT and "f64" in (gen or "") + rawT and not isinstance(v, bool):
